@@ -58,6 +58,134 @@ type world struct {
 	winArmed   map[int]bool
 	winEntered map[int]chan struct{}
 	winRelease map[int]chan struct{}
+
+	// hold points inside the fakes and MsgAcceptFunc: a server thread is held AT a step of
+	// its read loop until the lock region of a Shutdown call has taken effect (or, for a
+	// step the server runs under srv.lock, until the Shutdown call is blocked on that lock)
+	holds       map[string]*holdPoint
+	holdLog     []string  // how each hold ended (stat only)
+	sdInvokedAt time.Time // when the latest Shutdown call of this life was invoked
+
+	// lives of the same Server value: logs of the lives that are over
+	past     [][]string
+	panicked []string // a serve / Shutdown call panicked (recovered by the harness)
+}
+
+type holdPoint struct {
+	armed   bool
+	entered chan struct{}
+	release chan struct{}
+}
+
+// armHold arms the hold point key:
+//   dl.<c>  inside SetReadDeadline(future) of connection c (0: the PacketConn), before it takes effect
+//   rd.<c>  inside Read / ReadFrom, after request / packet c has been consumed, before the call returns
+//   ac.<c>  inside Accept, after connection c has been taken, before the call returns
+//   ma.<c>  inside MsgAcceptFunc for request c (worker running, handler not yet entered)
+//   cl.<c>  inside Close of connection c, before it takes effect
+func (w *world) armHold(key string) {
+	w.mu.Lock()
+	w.holds[key] = &holdPoint{armed: true, entered: make(chan struct{}), release: make(chan struct{})}
+	w.mu.Unlock()
+}
+func (w *world) waitHold(key string) {
+	w.mu.Lock()
+	h := w.holds[key]
+	w.mu.Unlock()
+	if h == nil {
+		return
+	}
+	select {
+	case <-h.entered:
+	case <-time.After(waitLong):
+		if w.stuck == "" {
+			w.stuck = "no server thread reached the step " + key
+		}
+	}
+}
+func (w *world) releaseHold(key string) {
+	w.mu.Lock()
+	h := w.holds[key]
+	var rel chan struct{}
+	if h != nil {
+		rel = h.release
+		h.release = nil
+		h.armed = false
+	}
+	w.mu.Unlock()
+	if rel != nil {
+		close(rel)
+	}
+}
+
+// holdAt is called by a fake (never with its own mutex held) at a step of the server's read
+// loop.  If that step is armed, the calling server thread stays there until
+//   - passed() reports that the lock region of a Shutdown call has taken effect on the object, or
+//   - lockHeld (the server may run this step under srv.lock, so Shutdown cannot get in): a
+//     ShutdownContext call is blocked acquiring a lock, or was invoked more than 3 s ago, or
+//   - the harness releases the point.
+// It only delays a thread inside a net.Conn / net.PacketConn / net.Listener / user callback,
+// which any such object may do; it is never a verdict by itself.
+func (w *world) holdAt(key string, lockHeld bool, passed func() bool) {
+	w.mu.Lock()
+	h := w.holds[key]
+	if h == nil || !h.armed {
+		w.mu.Unlock()
+		return
+	}
+	h.armed = false
+	rel := h.release
+	w.mu.Unlock()
+	close(h.entered)
+	how := "timeout"
+	start := time.Now()
+loop:
+	for time.Since(start) < waitLong {
+		select {
+		case <-rel:
+			how = "released"
+			break loop
+		default:
+		}
+		if passed() {
+			how = "shutdown-ran"
+			break
+		}
+		if lockHeld {
+			w.mu.Lock()
+			inv := w.sdInvokedAt
+			w.mu.Unlock()
+			if !inv.IsZero() {
+				if shutdownBlockedOnLock() {
+					how = "shutdown-blocked-on-lock"
+					break
+				}
+				if time.Since(inv) > 3*time.Second {
+					how = "undecided"
+					break
+				}
+			}
+		}
+		time.Sleep(300 * time.Microsecond)
+	}
+	w.mu.Lock()
+	w.holdLog = append(w.holdLog, key[:2]+"_"+how)
+	w.mu.Unlock()
+}
+
+// shutdownBlockedOnLock: some goroutine is inside (*Server).ShutdownContext and blocked in
+// sync.(*RWMutex).Lock / sync.(*Mutex).Lock called directly from it (goroutine dump).
+func shutdownBlockedOnLock() bool {
+	buf := make([]byte, 1<<18)
+	n := runtime.Stack(buf, true)
+	lines := strings.Split(string(buf[:n]), "\n")
+	for i, l := range lines {
+		if i >= 2 && strings.Contains(l, "(*Server).ShutdownContext(") &&
+			strings.HasPrefix(lines[i-2], "sync.(*") && strings.Contains(lines[i-2], ").Lock(") {
+			return true
+		}
+	}
+	return false
 }
 
 // windowReader is installed with Server.DecorateReader: its methods run after
@@ -125,11 +253,21 @@ func (w *world) unhold(id int) {
 
 func newWorld(mode string) *world {
 	w := &world{mode: mode, conns: map[int]*fakeConn{}, gates: map[int]chan struct{}{}, cancels: map[int]context.CancelFunc{}, replies: map[int]int{},
-		winArmed: map[int]bool{}, winEntered: map[int]chan struct{}{}, winRelease: map[int]chan struct{}{}}
+		winArmed: map[int]bool{}, winEntered: map[int]chan struct{}{}, winRelease: map[int]chan struct{}{}, holds: map[string]*holdPoint{}}
 	w.cond = sync.NewCond(&w.mu)
 	w.srv = &dns.Server{Handler: dns.HandlerFunc(w.handler), NotifyStartedFunc: func() { w.log("n") }}
 	w.srv.DecorateReader = func(r dns.Reader) dns.Reader { return windowReader{w, r} }
-	if mode == "tcp" {
+	w.srv.MsgAcceptFunc = func(dh dns.Header) dns.MsgAcceptAction {
+		w.holdAt(fmt.Sprintf("ma.%d", dh.Id), false, w.shutdownSeen)
+		return dns.DefaultMsgAcceptFunc(dh)
+	}
+	w.newTransport()
+	return w
+}
+
+// newTransport gives the Server value a new (unused) listener / PacketConn.
+func (w *world) newTransport() {
+	if w.mode == "tcp" {
 		w.lis = &fakeListener{w: w, queue: make(chan *fakeConn, 64), closed: make(chan struct{}), errs: make(chan error, 8)}
 		w.srv.Listener = w.lis
 	} else {
@@ -137,7 +275,29 @@ func newWorld(mode string) *world {
 		w.pc.cond = sync.NewCond(&w.pc.mu)
 		w.srv.PacketConn = w.pc
 	}
-	return w
+}
+
+// newLife: the previous life of the Server value is over (every start / Shutdown call has
+// returned, no goroutine of it remains); its log is archived, the same Server value gets a
+// new listener / PacketConn and the per-life bookkeeping of the harness starts afresh.
+func (w *world) newLife(name string, base int, plan []string) bool {
+	if !w.callersReturned() {
+		return false
+	}
+	w.goroutinesBack(name, base, plan)
+	w.mu.Lock()
+	w.past = append(w.past, w.ev)
+	w.ev = nil
+	w.conns = map[int]*fakeConn{}
+	w.gates = map[int]chan struct{}{}
+	w.cancels = map[int]context.CancelFunc{}
+	w.replies = map[int]int{}
+	w.winArmed, w.winEntered, w.winRelease = map[int]bool{}, map[int]chan struct{}{}, map[int]chan struct{}{}
+	w.holds = map[string]*holdPoint{}
+	w.sdInvokedAt = time.Time{}
+	w.mu.Unlock()
+	w.newTransport()
+	return true
 }
 
 func (w *world) log(e string) {
@@ -252,6 +412,8 @@ func (l *fakeListener) Accept() (net.Conn, error) {
 		}
 		l.w.log(fmt.Sprintf("ao.%d", c.id))
 		l.mu.Unlock()
+		// Accept has taken the connection; it may return it after the listener was closed
+		l.w.holdAt(fmt.Sprintf("ac.%d", c.id), false, l.w.shutdownSeen)
 		return c, nil
 	}
 }
@@ -272,6 +434,7 @@ type fakeConn struct {
 	in     []byte // octets the client has sent and the server has not read
 	msgEnd []int  // remaining lengths: in is a sequence of framed messages; msgEnd[0] = octets left of the current one
 	dlPast bool
+	sawPast bool // a deadline in the past has been set (Shutdown reached this connection)
 	eof    bool // client closed its side
 	closed bool // server closed
 	out    [][]byte
@@ -321,6 +484,9 @@ func (c *fakeConn) Read(p []byte) (int, error) {
 			if c.msgEnd[0] == 0 {
 				c.msgEnd = c.msgEnd[1:]
 				c.w.log(fmt.Sprintf("rq.%d", c.id)) // the whole request has been read
+				c.mu.Unlock()
+				c.w.holdAt(fmt.Sprintf("rd.%d", c.id), false, c.w.shutdownSeen)
+				c.mu.Lock()
 			}
 			return n, nil
 		}
@@ -343,6 +509,7 @@ func (c *fakeConn) Write(p []byte) (int, error) {
 	return len(p), nil
 }
 func (c *fakeConn) Close() error {
+	c.w.holdAt(fmt.Sprintf("cl.%d", c.id), false, c.w.shutdownSeen)
 	c.mu.Lock()
 	already := c.closed
 	c.closed = true
@@ -359,9 +526,21 @@ func (c *fakeConn) SetDeadline(t time.Time) error {
 	c.SetReadDeadline(t)
 	return nil
 }
+func (c *fakeConn) seenPast() bool {
+	c.mu.Lock()
+	defer c.mu.Unlock()
+	return c.sawPast
+}
 func (c *fakeConn) SetReadDeadline(t time.Time) error {
+	if !t.IsZero() && !t.Before(time.Now()) {
+		// arming a future deadline: the step readTCP must not let Shutdown's deadline be overridden at
+		c.w.holdAt(fmt.Sprintf("dl.%d", c.id), true, c.seenPast)
+	}
 	c.mu.Lock()
 	c.dlPast = !t.IsZero() && t.Before(time.Now())
+	if c.dlPast {
+		c.sawPast = true
+	}
 	c.cond.Broadcast()
 	c.mu.Unlock()
 	return nil
@@ -407,6 +586,9 @@ func (p *fakePC) ReadFrom(b []byte) (int, net.Addr, error) {
 			p.q = p.q[1:]
 			n := copy(b, x.b)
 			p.w.log(fmt.Sprintf("pk.%d", x.id))
+			p.mu.Unlock()
+			p.w.holdAt(fmt.Sprintf("rd.%d", x.id), false, p.seenPast)
+			p.mu.Lock()
 			return n, idAddr{x.id}, nil
 		}
 		p.cond.Wait()
@@ -418,6 +600,10 @@ func (p *fakePC) WriteTo(b []byte, a net.Addr) (int, error) {
 		id = x.id
 	}
 	p.mu.Lock()
+	if p.closed {
+		p.mu.Unlock()
+		return 0, net.ErrClosed
+	}
 	if p.out == nil {
 		p.out = map[int]int{}
 	}
@@ -447,7 +633,16 @@ func (p *fakePC) Close() error {
 }
 func (p *fakePC) LocalAddr() net.Addr           { return idAddr{0} }
 func (p *fakePC) SetDeadline(t time.Time) error { return p.SetReadDeadline(t) }
+func (p *fakePC) seenPast() bool {
+	p.mu.Lock()
+	defer p.mu.Unlock()
+	return p.sawPast
+}
 func (p *fakePC) SetReadDeadline(t time.Time) error {
+	if !t.IsZero() && !t.Before(time.Now()) {
+		// arming a future deadline: the step readPacketConn must not let Shutdown's deadline be overridden at
+		p.w.holdAt("dl.0", true, p.seenPast)
+	}
 	p.mu.Lock()
 	p.dlPast = !t.IsZero() && t.Before(time.Now())
 	if p.dlPast {
@@ -473,6 +668,14 @@ func (w *world) start(i int) {
 	w.hw.Add(1)
 	go func() {
 		defer w.hw.Done()
+		defer func() {
+			if r := recover(); r != nil {
+				w.mu.Lock()
+				w.panicked = append(w.panicked, fmt.Sprintf("start call %d: %v", i, r))
+				w.mu.Unlock()
+				w.log("sr.1")
+			}
+		}()
 		err := w.srv.ActivateAndServe()
 		switch {
 		case err == nil:
@@ -523,9 +726,20 @@ func (w *world) shutdown(j int, withCtx bool) {
 		w.mu.Unlock()
 	}
 	w.log(fmt.Sprintf("di.%d", j))
+	w.mu.Lock()
+	w.sdInvokedAt = time.Now()
+	w.mu.Unlock()
 	w.hw.Add(1)
 	go func() {
 		defer w.hw.Done()
+		defer func() {
+			if r := recover(); r != nil {
+				w.mu.Lock()
+				w.panicked = append(w.panicked, fmt.Sprintf("Shutdown call %d: %v", j, r))
+				w.mu.Unlock()
+				w.log(fmt.Sprintf("dr.%d.9", j))
+			}
+		}()
 		err := w.srv.ShutdownContext(ctx)
 		switch {
 		case err == nil:
@@ -590,9 +804,46 @@ func idx(ev []string, e string) int {
 
 // oracles on the event log alone (no model): the property statement on the implementation
 func (w *world) judge(name string, plan []string, fatalInjected bool) {
-	ev := w.events()
-	in := map[string]any{"scenario": name, "mode": w.mode, "plan": plan, "events": ev}
+	w.mu.Lock()
+	lives := append(append([][]string(nil), w.past...), append([]string(nil), w.ev...))
+	panicked := append([]string(nil), w.panicked...)
+	for _, h := range w.holdLog {
+		st["hold_"+h]++
+	}
+	w.mu.Unlock()
 	st["scenarios_checked"]++
+	if len(lives) > 1 {
+		st["scenarios_with_restart_checked"]++
+	}
+	for li, ev := range lives {
+		w.judgeLife(name, plan, fatalInjected, li, len(lives), ev)
+	}
+	if len(panicked) > 0 {
+		Viol("C13/call-panicked", "a serve / Shutdown call panicked: "+strings.Join(panicked, "; "),
+			map[string]any{"scenario": name, "mode": w.mode, "plan": plan, "lives": lives})
+	}
+	// model cases: every life is a behaviour of the LTS from its initial state; for a
+	// restarted Server additionally: at every restart the previous life is over in every
+	// model state the log allows
+	if len(lives) > 1 {
+		args := []string{w.mode}
+		for li, ev := range lives {
+			if li > 0 {
+				args = append(args, "ep")
+			}
+			args = append(args, ev...)
+		}
+		Emit("lts_lives", args, "ok")
+		st["restart_traces_emitted"]++
+	}
+}
+
+// the oracles of the property on the log of one life of the Server value
+func (w *world) judgeLife(name string, plan []string, fatalInjected bool, life, lives int, ev []string) {
+	in := map[string]any{"scenario": name, "mode": w.mode, "plan": plan, "events": ev}
+	if lives > 1 {
+		in["life"] = fmt.Sprintf("%d of %d lives of the same Server value", life+1, lives)
+	}
 	// Shutdown returned nil  ==>  every handler that was entered has exited
 	for i, e := range ev {
 		if strings.HasPrefix(e, "dr.") && strings.HasSuffix(e, ".0") {
@@ -626,11 +877,22 @@ func (w *world) judge(name string, plan []string, fatalInjected bool) {
 	}
 	// replies written by in-flight handlers are delivered
 	if !w.noReply {
-		for _, e := range ev {
+		// (a ShutdownContext call whose context expired does not wait for the handlers and
+		// closes the PacketConn: no delivery is promised to UDP handlers that return later)
+		cut := len(ev)
+		if w.mode == "udp" {
+			for i, e := range ev {
+				if strings.HasPrefix(e, "dc.") {
+					cut = i
+					break
+				}
+			}
+		}
+		for _, e := range ev[:cut] {
 			if strings.HasPrefix(e, "hx.") {
 				id := e[3:]
 				nrp, nhx := 0, 0
-				for _, x := range ev {
+				for _, x := range ev[:cut] {
 					if x == "rp."+id {
 						nrp++
 					}
@@ -660,16 +922,24 @@ func (w *world) judge(name string, plan []string, fatalInjected bool) {
 
 // settle: all harness goroutines returned and the goroutine count is back at the baseline
 func (w *world) settle(name string, base int, plan []string) {
+	if w.callersReturned() {
+		w.goroutinesBack(name, base, plan)
+	}
+}
+func (w *world) callersReturned() bool {
 	done := make(chan struct{})
 	go func() { w.hw.Wait(); close(done) }()
 	select {
 	case <-done:
+		return true
 	case <-time.After(waitLong):
 		if w.stuck == "" {
 			w.stuck = "a start / Shutdown call did not return"
 		}
-		return
+		return false
 	}
+}
+func (w *world) goroutinesBack(name string, base int, plan []string) {
 	d := time.Now().Add(5 * time.Second)
 	for runtime.NumGoroutine() > base {
 		if time.Now().After(d) {
@@ -695,6 +965,11 @@ func (w *world) settle(name string, base int, plan []string) {
 //   P<c> arm the window of reader c (0 = the UDP serve loop): its next read is held between the
 //        srv.isStarted() test and the read-deadline region      V<c> wait until it is there   U<c> let it go
 //   s<i> start call without waiting                                Z    Shutdown calls until one finds the server started
+//   H<key> arm the hold point key (see armHold): the server thread that reaches that step of the
+//        read loop stays there until the lock region of a Shutdown call has run (or the call is
+//        blocked on srv.lock)           G<key> wait until a thread is there   L<key> let it go
+//   N    the life of the Server value is over (all calls returned, no goroutine left): the SAME
+//        Server value gets a new listener / PacketConn; the following operations are its next life
 func runPlan(mode, name string, plan []string, attempt int) bool {
 	if stuckConfirmed >= 2 {
 		st["scenarios_skipped_after_confirmed_hangs"]++
@@ -767,6 +1042,16 @@ func runPlan(mode, name string, plan []string, attempt int) bool {
 			w.unhold(a)
 		case 's':
 			w.start(a)
+		case 'H':
+			w.armHold(op[1:])
+		case 'G':
+			w.waitHold(op[1:])
+		case 'L':
+			w.releaseHold(op[1:])
+		case 'N':
+			if w.newLife(name, base, plan) {
+				reqCount, entered, released, shut = map[int]int{}, map[int]int{}, map[int]int{}, false
+			}
 		case 'Z':
 			// Shutdown racing with the start call: repeat until one call finds the server started
 			for j := 0; j < 200 && w.stuck == ""; j++ {
@@ -798,6 +1083,15 @@ func runPlan(mode, name string, plan []string, attempt int) bool {
 	// let everything finish: open every window, release every handler that may still be entered
 	for id := range w.winRelease {
 		w.unhold(id)
+	}
+	w.mu.Lock()
+	var hkeys []string
+	for k := range w.holds {
+		hkeys = append(hkeys, k)
+	}
+	w.mu.Unlock()
+	for _, k := range hkeys {
+		w.releaseHold(k)
 	}
 	for id := range reqCount {
 		for i := 0; i < 4; i++ {
@@ -981,7 +1275,58 @@ func runC13(r *Rng, tier string, n int) {
 		runPlan(mode, fmt.Sprintf("race-%d", i), full, 0)
 		st["family_race"]++
 	}
-	// ---- D. real sockets: the same oracles, no model case
+	// ---- F. Shutdown forced against every step of the read loop (generic PacketConn / Listener / Conn)
+	for _, mode := range []string{"tcp", "udp"} {
+		for _, hc := range holdCases(mode) {
+			runPlan(mode, "step-"+hc.name, hc.plan, 0)
+			st["family_read_loop_steps"]++
+		}
+	}
+	// ---- G. the same Server value started again after Shutdown: every ordered pair of lives,
+	//         sampled triples (thorough: more), Shutdown of the stopped server between lives
+	for _, mode := range []string{"tcp", "udp"} {
+		bodies := lifeBodies(mode)
+		var names []string
+		for nm := range bodies {
+			names = append(names, nm)
+		}
+		sort.Strings(names)
+		for _, a := range names {
+			for _, b := range names {
+				plan := append(append(append([]string{}, bodies[a]...), "N"), bodies[b]...)
+				runPlan(mode, "restart-"+a+"-"+b, plan, 0)
+				st["family_restart"]++
+			}
+		}
+		nTriples := 10
+		if thorough {
+			nTriples = 120
+		}
+		for i := 0; i < nTriples; i++ {
+			var plan []string
+			nm := "restart"
+			lives := 3 + r.Intn(2)
+			for l := 0; l < lives; l++ {
+				if l > 0 {
+					plan = append(plan, "N")
+				}
+				b := names[r.Intn(len(names))]
+				nm += "-" + b
+				plan = append(plan, bodies[b]...)
+				if r.Intn(3) == 0 {
+					// Shutdown of the stopped server between two lives: error, at once
+					plan = append(plan, "d7", "Wdr.7.2")
+				}
+			}
+			runPlan(mode, nm, plan, 0)
+			st["family_restart"]++
+		}
+	}
+	// ---- H. a new life started while the previous serve call is still draining
+	restartWhileDraining("tcp", false)
+	restartWhileDraining("udp", false)
+	restartWhileDraining("tcp", true)
+	// ---- D. real sockets: the same oracles, no model case; every Server value lives twice
 	for i := 0; i < 6; i++ {
 		realRun("udp", 1+i%3, i >= 3)
 		realRun("tcp", 1+i%3, i >= 3)
@@ -992,27 +1337,317 @@ func runC13(r *Rng, tier string, n int) {
 	Stat(st)
 }
 
+// ---------------------------------------------------------------- Shutdown against every step of the read loop
+type holdCase struct {
+	name string
+	plan []string
+}
+
+// holdCases: for every step of the read loop a fake can hold a server thread at (arming the
+// read deadline, a read that has consumed a request / packet, Accept that has taken a
+// connection, MsgAcceptFunc = worker running but handler not entered, Close of a connection),
+// in every position of the loop it occurs at (first iteration, after a temporary error, after
+// a request), with and without another handler in flight, a Shutdown call (waiting, or with a
+// context that expires) is made while the thread is AT that step.
+func holdCases(mode string) []holdCase {
+	type pt struct {
+		name string
+		ops  []string // after S0 (and the background): arm, trigger, wait until the thread is there
+		fin  []string // after the Shutdown call
+		bg   bool     // can be combined with a background handler
+	}
+	var pts []pt
+	if mode == "udp" {
+		pts = []pt{
+			{"dl-after-timeout", []string{"Hdl.0", "T", "Gdl.0"}, nil, true},
+			{"dl-after-packet", []string{"Hdl.0", "Q1", "Gdl.0"}, []string{"R1"}, true},
+			{"rd", []string{"Hrd.1", "q1", "Grd.1"}, []string{"R1"}, true},
+			{"ma", []string{"Hma.1", "q1", "Gma.1"}, []string{"R1"}, true},
+			{"rd-then-dl", []string{"Hrd.1", "Hdl.0", "q1", "Grd.1"}, []string{"R1"}, true},
+		}
+	} else {
+		pts = []pt{
+			{"ac-idle", []string{"Hac.1", "C1", "Gac.1"}, nil, true},
+			{"ac-request-pending", []string{"Hac.1", "C1", "q1", "Gac.1"}, []string{"R1"}, true},
+			{"dl-first-read", []string{"Hdl.1", "C1", "Gdl.1"}, nil, true},
+			{"dl-first-read-request-pending", []string{"Hdl.1", "C1", "q1", "Gdl.1"}, []string{"R1"}, true},
+			{"dl-second-read", []string{"C1", "Q1", "Hdl.1", "R1", "Gdl.1"}, nil, true},
+			{"rd", []string{"C1", "Hrd.1", "q1", "Grd.1"}, []string{"R1"}, true},
+			{"ma", []string{"C1", "Hma.1", "q1", "Gma.1"}, []string{"R1"}, true},
+			{"cl", []string{"C1", "Hcl.1", "X1", "Gcl.1"}, nil, true},
+			{"ac-and-dl", []string{"Hac.2", "C1", "Hdl.1", "Q1", "C2", "R1", "Gdl.1", "Gac.2"}, nil, true},
+		}
+	}
+	var out []holdCase
+	if mode == "udp" {
+		// the very first iteration of serveUDP
+		out = append(out, holdCase{"udp-dl-first", []string{"Hdl.0", "S0", "Gdl.0", "D0", "Wdr.0.0", "Wsr.0"}})
+	}
+	for _, p := range pts {
+		for _, bg := range []bool{false, true} {
+			for _, kind := range []string{"D", "K"} {
+				if kind == "K" && !bg {
+					continue // a context can only be seen to expire while a handler is held
+				}
+				plan := []string{"S0"}
+				nm := mode + "-" + p.name
+				if bg {
+					nm += "-bg"
+					if mode == "tcp" {
+						plan = append(plan, "C9")
+					}
+					plan = append(plan, "Q9")
+				}
+				plan = append(plan, p.ops...)
+				if kind == "D" {
+					plan = append(plan, "D0")
+					plan = append(plan, p.fin...)
+					if bg {
+						plan = append(plan, "R9")
+					}
+					plan = append(plan, "Wdr.0.0", "Wsr.0")
+				} else {
+					nm += "-ctx"
+					plan = append(plan, "K0", "k0")
+					plan = append(plan, p.fin...)
+					plan = append(plan, "R9", "Wsr.0")
+				}
+				out = append(out, holdCase{nm, plan})
+			}
+		}
+	}
+	return out
+}
+
+// lifeBodies: what one life of a Server value can look like (each ends with the serve call
+// and every Shutdown call returned)
+func lifeBodies(mode string) map[string][]string {
+	c := func(ops ...string) []string {
+		var out []string
+		for _, o := range ops {
+			if o[0] == 'C' && mode != "tcp" {
+				continue
+			}
+			out = append(out, o)
+		}
+		return out
+	}
+	b := map[string][]string{
+		"idle":     c("S0", "D0", "Wdr.0.0", "Wsr.0"),
+		"inflight": c("S0", "C1", "Q1", "D0", "R1", "Wdr.0.0", "Wsr.0"),
+		"served":   c("S0", "C1", "Q1", "R1", "D0", "Wdr.0.0", "Wsr.0"),
+		"ctx":      c("S0", "C1", "Q1", "K0", "k0", "R1", "Wsr.0"),
+		"two":      c("S0", "C1", "C2", "Q1", "Q2", "D0", "R2", "R1", "Wdr.0.0", "Wsr.0"),
+		"late":     c("S0", "C1", "C2", "Q1", "D0", "q2", "R1", "Wdr.0.0", "Wsr.0"),
+		"dstart":   c("S0", "S1", "Wse.1", "C1", "Q1", "D0", "d1", "Wdr.1.2", "R1", "Wdr.0.0", "Wsr.0"),
+	}
+	if mode == "tcp" {
+		b["idleconn"] = []string{"S0", "C1", "C2", "D0", "Wdr.0.0", "Wsr.0"}
+		b["step-dl"] = []string{"S0", "C1", "Q1", "Hdl.1", "R1", "Gdl.1", "D0", "Wdr.0.0", "Wsr.0"}
+		b["step-ac"] = []string{"S0", "C2", "Q2", "Hac.1", "C1", "Gac.1", "D0", "R2", "Wdr.0.0", "Wsr.0"}
+	} else {
+		b["step-dl"] = []string{"S0", "Hdl.0", "Q1", "Gdl.0", "D0", "R1", "Wdr.0.0", "Wsr.0"}
+		b["step-rd"] = []string{"S0", "Q2", "Hrd.1", "q1", "Grd.1", "D0", "R1", "R2", "Wdr.0.0", "Wsr.0"}
+	}
+	return b
+}
+
+// ---------------------------------------------------------------- restart while the previous life drains
+// ShutdownContext returned because its context expired (a handler of the first life is still
+// running, the first serve call still waits for it); the same Server value is started again on a
+// new listener / PacketConn; a query is in flight in the second life; the first-life handler
+// returns; Shutdown of the second life is called.  The property's oracles: Shutdown of the
+// second life returns only after the second-life handler has returned, both serve calls return
+// nil, no call panics (key C13/restart-while-draining: the first serve call used to close the
+// second life's srv.shutdown channel).
+// keepOpen (TCP): the client of the first life keeps its connection open after its reply.  Once
+// Shutdown of the second life has returned, no handler may be started for a query on it, and
+// the connection and the first serve call must not remain
+// (key C13/restart-while-draining/connection-outlives-shutdown).
+// A library that refuses the second start while the first serve call has not returned
+// satisfies the property trivially (counted, no verdict).
+func restartWhileDraining(mode string, keepOpen bool) {
+	key := "C13/restart-while-draining"
+	name := "restart-while-draining-" + mode
+	if keepOpen {
+		key += "/connection-outlives-shutdown"
+		name += "-conn-kept-open"
+	}
+	base := runtime.NumGoroutine()
+	w := newWorld(mode)
+	plan := []string{"S0", "C1", "Q1", "K0", "k0", "(new listener, same Server) S1", "C2", "Q2", "R1", "X1 unless kept open", "D1", "R2", "Wdr.1.0", "Wsr.0", "late query on connection 1 if kept open"}
+	var c1 *fakeConn
+	cleanup := func() {
+		for i := 0; i < 4; i++ {
+			w.release(1)
+			w.release(2)
+		}
+		if c1 != nil {
+			c1.CloseClient()
+		}
+		if w.lis != nil {
+			w.lis.Close()
+		}
+		if w.pc != nil {
+			w.pc.Close()
+		}
+	}
+	fail := func(what string) {
+		w.mu.Lock()
+		pan := append([]string(nil), w.panicked...)
+		w.mu.Unlock()
+		Viol(key, what, map[string]any{"scenario": name, "mode": mode, "plan": plan, "events": w.events(), "panicked": pan})
+		cleanup()
+	}
+	w.start(0)
+	w.waitFor("n", 1)
+	if mode == "tcp" {
+		w.connect(1, true)
+		w.mu.Lock()
+		c1 = w.conns[1]
+		w.mu.Unlock()
+	}
+	w.request(1, 1, true)
+	w.shutdown(0, true)
+	w.waitShutdownSeen()
+	w.cancel(0)
+	w.waitFor("dr.0.1", 1)
+	if w.stuck != "" {
+		fail("first life: " + w.stuck)
+		return
+	}
+	// second life of the same Server value; the first serve call still waits for handler 1
+	w.newTransport()
+	w.start(1)
+	d := time.Now().Add(waitLong)
+	for {
+		w.mu.Lock()
+		served, refused := w.count("n") >= 2, w.count("se.1") > 0
+		w.mu.Unlock()
+		if served {
+			break
+		}
+		if refused {
+			st["restart_while_draining_refused"]++
+			cleanup()
+			w.waitFor("sr.0", 1)
+			w.stuck = ""
+			return
+		}
+		if time.Now().After(d) {
+			fail("the second start neither served nor was refused")
+			return
+		}
+		time.Sleep(200 * time.Microsecond)
+	}
+	if mode == "tcp" {
+		w.connect(2, true)
+	}
+	w.request(2, 1, true)
+	w.release(1)
+	w.waitFor("hx.1", 1)
+	if !keepOpen {
+		if c1 != nil {
+			c1.CloseClient()
+		}
+		w.waitFor("sr.0", 1) // the first serve call returns
+	}
+	w.shutdown(1, false)
+	w.waitShutdownSeen()
+	// handler 2 is still held: Shutdown must not return now
+	early := false
+	d = time.Now().Add(300 * time.Millisecond)
+	for time.Now().Before(d) && !early && w.stuck == "" {
+		w.mu.Lock()
+		early = w.count("dr.1.0") > 0
+		w.mu.Unlock()
+		time.Sleep(time.Millisecond)
+	}
+	w.release(2)
+	w.waitFor("hx.2", 1)
+	w.waitFor("dr.1.0", 1)
+	nsr := 2
+	if keepOpen {
+		nsr = 1
+	}
+	w.waitFor("sr.0", nsr)
+	w.mu.Lock()
+	pan := append([]string(nil), w.panicked...)
+	w.mu.Unlock()
+	st["restart_while_draining_checked"]++
+	switch {
+	case early:
+		fail("the same Server value was started again while its previous serve call was still waiting for a handler " +
+			"(ShutdownContext had returned its context error): Shutdown of the new life returned nil while a handler of the new life was still running")
+		return
+	case len(pan) > 0:
+		fail("the same Server value was started again while its previous serve call was still draining: " + strings.Join(pan, "; "))
+		return
+	case w.stuck != "":
+		fail("second life: " + w.stuck)
+		return
+	}
+	if keepOpen && c1 != nil {
+		// Shutdown of the second life has returned nil and its serve call has returned
+		c1.Send(query(1))
+		started := false
+		d = time.Now().Add(500 * time.Millisecond)
+		for time.Now().Before(d) && !started {
+			w.mu.Lock()
+			started = w.count("he.1") >= 2
+			closed := w.count("wc.1") > 0
+			w.mu.Unlock()
+			if closed {
+				break
+			}
+			time.Sleep(time.Millisecond)
+		}
+		w.mu.Lock()
+		closed, sr := w.count("wc.1") > 0, w.count("sr.0")
+		w.mu.Unlock()
+		switch {
+		case started:
+			fail("a connection accepted in the first life was still being served after Shutdown of the second life had returned nil " +
+				"(it is not in the new srv.conns, so its read was not unblocked): a handler was STARTED for a query on it after Shutdown returned")
+			return
+		case !closed || sr < 2:
+			fail("after Shutdown of the second life had returned nil, a connection of the first life was still open / the first serve call had not returned")
+			return
+		}
+	}
+	w.settle(name, base, plan)
+	if w.stuck != "" {
+		fail(w.stuck)
+	}
+}
+
 // ---------------------------------------------------------------- real loopback sockets
 func realRun(network string, k int, withCtx bool) {
 	for attempt := 0; attempt < 2; attempt++ {
-		infra := realOnce(network, k, withCtx)
+		srv := &dns.Server{}
+		infra := realOnce(srv, 1, network, k, withCtx)
 		if infra == "" {
 			st["real_runs_checked"]++
-			return
+			// the second life of the same Server value, new socket
+			infra = realOnce(srv, 2, network, 1+(k%3), !withCtx)
+			if infra == "" {
+				st["real_restart_runs_checked"]++
+				return
+			}
 		}
 		fmt.Fprintln(os.Stderr, "C13 real-socket run: infrastructure problem:", infra)
 		st["real_infra_retries"]++
 	}
 }
 
-func realOnce(network string, k int, withCtx bool) string {
+func realOnce(srv *dns.Server, life int, network string, k int, withCtx bool) string {
 	base := runtime.NumGoroutine()
 	var mu sync.Mutex
 	var ev []string
 	logf := func(s string) { mu.Lock(); ev = append(ev, s); mu.Unlock() }
 	gate := make(chan struct{}, 16)
 	entered := make(chan struct{}, 16)
-	srv := &dns.Server{}
+	srv.PacketConn, srv.Listener = nil, nil
 	started := make(chan struct{})
 	srv.NotifyStartedFunc = func() { close(started) }
 	srv.Handler = dns.HandlerFunc(func(w dns.ResponseWriter, req *dns.Msg) {
@@ -1041,7 +1676,14 @@ func realOnce(network string, k int, withCtx bool) string {
 		addr = l.Addr().String()
 	}
 	served := make(chan error, 1)
-	go func() { served <- srv.ActivateAndServe() }()
+	go func() {
+		defer func() {
+			if r := recover(); r != nil {
+				served <- fmt.Errorf("serve call panicked: %v", r)
+			}
+		}()
+		served <- srv.ActivateAndServe()
+	}()
 	select {
 	case <-started:
 	case <-time.After(waitLong):
@@ -1102,7 +1744,7 @@ func realOnce(network string, k int, withCtx bool) string {
 		}
 		sd <- err
 	}()
-	in := map[string]any{"network": network, "handlers_in_flight": k, "ctx_expiry": withCtx}
+	in := map[string]any{"network": network, "handlers_in_flight": k, "ctx_expiry": withCtx, "life_of_the_server_value": life}
 	if withCtx {
 		cancel()
 		select {
